@@ -293,3 +293,37 @@ def r4(cx):
         else:
             cx.violation(ck, "every-tier-before-return", "%s: invalidate can return without removing the key from %s: after delete / rename a read is still answered from the stale entry "
                          "(e.g. the key was evicted from L1 but lives on in L2)" % (b.sp(r), "L1" if not ok1 else "the L2 tier"), [b.sp(r)])
+
+
+@rule("C16", "R5", "no answer from memory of an absence: every exit of CachedObjectStore::get - success or failure - lies behind the keyed get_or_fetch call, and every exit of "
+      "get_opts behind either that cached get or the backing store's get_opts; the caching store cannot answer (in particular: fail) without consulting a tier or the store")
+def r5(cx):
+    gk = CS + "get::{closure#0}"
+    b = cx.body(gk)
+    if b is None:
+        cx.violation(CS + "get", "anchor-missing", "body not found", [])
+        return
+    gofs = set(M.find_calls(b, lambda c: c == GOF))
+    if cx.floor("get_or_fetch calls in CachedObjectStore::get", len(gofs), 1, gk):
+        exits = M.exit_defs(b)
+        cx.floor("exits of CachedObjectStore::get", len(exits), 2, gk)
+        bad = [e for e in exits if not b.dominated_by_blocks(e[0], gofs)]
+        if bad:
+            cx.violation(CS + "get", "answers-only-after-lookup", "%s: get can return (%s) without having consulted the cache tiers or the backing store for this key: an object the store holds is "
+                         "reported from remembered state instead of from its bytes" % (b.sp(bad[0][0], bad[0][1]), bad[0][2]), [b.sp(bad[0][0], bad[0][1])])
+        else:
+            cx.passed(CS + "get", "answers-only-after-lookup", [b.sp(sorted(gofs)[0])])
+    ok_ = CS + "get_opts::{closure#0}"
+    ob = cx.body(ok_)
+    if ob is None:
+        cx.violation(CS + "get_opts", "anchor-missing", "body not found", [])
+        return
+    srcs = set(M.find_calls(ob, lambda c: c in ("object_store::ObjectStore::get_opts", "object_store::ObjectStore::get", CS + "get")))
+    if cx.floor("lookups in CachedObjectStore::get_opts", len(srcs), 2, ok_):
+        exits = M.exit_defs(ob)
+        bad = [e for e in exits if not ob.dominated_by_blocks(e[0], srcs)]
+        if bad:
+            cx.violation(CS + "get_opts", "answers-only-after-lookup", "%s: get_opts can return (%s) without the cached get or the backing store's get_opts having been asked" % (
+                ob.sp(bad[0][0], bad[0][1]), bad[0][2]), [ob.sp(bad[0][0], bad[0][1])])
+        else:
+            cx.passed(CS + "get_opts", "answers-only-after-lookup", [ob.sp(sorted(srcs)[0])])
